@@ -53,10 +53,7 @@ def query (c : Content) (q : Json) : Except String Json := do
       pure (Json.mkObj [("args", resJ rowsJ a), ("fluxes", resJ rowsJ f), ("rhs", resJ rowsJ r)])
   | [.str "argsf", v, t, fl] =>
       pure (resJ (assocJ ratJ) (Mxl.getArgsSel c (← optVars v) (← jRat t) (← flags fl)))
-  | [.str "argnames", fl] =>
-      pure (resJ strsJ (do
-        let cache ← Mxl.createCache c
-        pure (Mxl.getArgNames c cache (← (flags fl).mapError fun s => Err.other s))))
+  | [.str "argnames", fl] => pure (resJ strsJ (Mxl.getArgNamesQ c (← flags fl)))
   | [.str "argsftc", rows, fl] => do
       let rs ← jList (jPair jRat (jAssoc jRat)) rows
       let rowsJ := fun (x : List (List (String × Rat))) => Json.arr (x.map (assocJ ratJ)).toArray
